@@ -1,8 +1,11 @@
 package clientfam
 
 import (
+	"encoding/json"
 	"flag"
 	"fmt"
+	"os"
+	"strings"
 	"testing"
 )
 
@@ -15,7 +18,20 @@ func TestDebug(t *testing.T) {
 		t.Skip("debug only")
 	}
 	var sc Scenario
+	if f, ok := strings.CutPrefix(*flagWitness, "@"); ok {
+		// -witness @file: a scenario in JSON (the "input" of a replay file)
+		b, err := os.ReadFile(f)
+		if err != nil {
+			t.Fatal(err)
+		}
+		if err := json.Unmarshal(b, &sc); err != nil {
+			t.Fatal(err)
+		}
+		sc = normalise(sc)
+		*flagWitness = "@"
+	}
 	switch *flagWitness {
+	case "@":
 	case "f16dup":
 		sc = f16Dup()
 	case "pptabort":
@@ -24,6 +40,8 @@ func TestDebug(t *testing.T) {
 		sc = dupInv()
 	case "f16":
 		sc = f16Variants()[2]
+	case "progchunks":
+		sc = progChunks()
 	default:
 		sc = generate(*flagSeed, *flagID, *flagProperty)
 	}
@@ -52,7 +70,7 @@ func TestDebug(t *testing.T) {
 			break
 		}
 	}
-	ok, used, err := searchSchedule(concreteOf(sc, res), res.Out, 3000)
+	ok, used, err := searchSchedule(concreteOf(sc, res), res.Out, 8000)
 	fmt.Println("SEARCH", ok, used, err)
 	for _, v := range check(sc, res, *flagProperty) {
 		fmt.Println("SPEC", v.Clause, v.Finding, v.Detail)
